@@ -69,7 +69,15 @@ type File struct {
 	// `layout:`, "quoted" = `layout: ""`, "tilde" = `layout: ~`. A key without a value names no
 	// layout, so the reference walker does not look at this field.
 	Empty string `json:"empty,omitempty"`
-	K     string `json:"k,omitempty"` // front-matter `k:` value; "" = key absent
+
+	// How the file is written on disk; none of it changes what the front-matter says, so the
+	// reference walker does not look at these fields (only NoBody changes the expected document).
+	EOL   string `json:"eol,omitempty"`   // "" = LF, "crlf" = CRLF line endings throughout
+	Fence string `json:"fence,omitempty"` // blanks after the fences: "open-sp", "close-sp", "close-tab", "both-sp"
+	// NoBody (only for files that have front-matter): the file ends with the closing fence,
+	// "eof" = without, "eofnl" = with a final line ending. Such a file renders to nothing.
+	NoBody string `json:"nobody,omitempty"`
+	K      string `json:"k,omitempty"` // front-matter `k:` value; "" = key absent
 }
 
 // Long describes a synthetic chain <dir>/c001.vuego -> c002 -> ... -> cN (-> Tail).
@@ -77,6 +85,7 @@ type Long struct {
 	N    int    `json:"n"`
 	Dir  string `json:"dir"`
 	Tail string `json:"tail,omitempty"`
+	EOL  string `json:"eol,omitempty"` // line endings of every synthetic file
 }
 
 // Case is one file-set description.
@@ -257,16 +266,45 @@ func sourceFM(f File, isPage, withLayout bool) string {
 	if isPage {
 		fm = append(fm, "pg: "+pgVal)
 	}
+	eol := "\n"
+	if f.EOL == "crlf" {
+		eol = "\r\n"
+	}
 	if len(fm) > 0 {
-		sb.WriteString("---\n" + strings.Join(fm, "\n") + "\n---\n")
+		open, closing := "---", "---"
+		switch f.Fence {
+		case "open-sp":
+			open += "  "
+		case "close-sp":
+			closing += "  "
+		case "close-tab":
+			closing += "\t"
+		case "both-sp":
+			open += " "
+			closing += "   "
+		}
+		sb.WriteString(open + eol + strings.Join(fm, eol) + eol + closing)
+		switch {
+		case f.NoBody == "eof":
+			return sb.String()
+		case f.NoBody == "eofnl":
+			return sb.String() + eol
+		}
+		sb.WriteString(eol)
 	}
 	id := markerID(f.Path)
 	sb.WriteString(`<div data-m="` + id + `"><b data-v="k">{{ k }}</b><b data-v="pg">{{ pg }}</b><b data-v="fd">{{ fd }}</b>`)
 	if !isPage {
 		sb.WriteString(`<div data-s="` + id + `" v-html="content"></div>`)
 	}
-	sb.WriteString("</div>\n")
+	sb.WriteString("</div>" + eol)
 	return sb.String()
+}
+
+// bodiless reports whether the file consists of front-matter only.
+func bodiless(f File, isPage bool) bool {
+	hasFM := isPage || f.Layout != "" || f.Empty != "" || f.K != ""
+	return hasFM && (f.NoBody == "eof" || f.NoBody == "eofnl")
 }
 
 // expand returns all layout files of the case (explicit + synthetic chain).
@@ -274,7 +312,7 @@ func expand(c Case) []File {
 	out := append([]File(nil), c.Files...)
 	if c.Long != nil {
 		for i := 1; i <= c.Long.N; i++ {
-			f := File{Path: fmt.Sprintf("%s/c%03d.vuego", c.Long.Dir, i)}
+			f := File{Path: fmt.Sprintf("%s/c%03d.vuego", c.Long.Dir, i), EOL: c.Long.EOL}
 			if i < c.Long.N {
 				f.Layout = fmt.Sprintf("c%03d", i+1)
 			} else {
@@ -680,21 +718,35 @@ func verify(c Case, chain []File, pageReused bool, out []byte) error {
 		return fmt.Errorf("%s\n  expected nesting (outermost first): %s\n  got outline: %s\n  got: %s",
 			fmt.Sprintf(format, a...), nesting(chain), hx.Outline(forest), short(out))
 	}
+	// A link that is front-matter only renders to nothing: the layouts outside it receive an
+	// empty `content`, so the document consists of the links after the last such file.
+	inner := 0 // index of the innermost file that shows in the document
+	for i, f := range chain {
+		if bodiless(f, i == 0) {
+			inner = i + 1
+		}
+	}
 	// every expected marker exactly once, nothing else: one document, no intermediate result
 	count := map[string]int{}
 	for _, id := range hx.MarkerIDs(forest) {
 		count[id]++
 	}
-	for _, f := range chain {
+	for _, f := range chain[inner:] {
 		if n := count[markerID(f.Path)]; n != 1 {
 			return fail("marker of %s occurs %d times in the output, want exactly once", f.Path, n)
 		}
 	}
-	if len(count) != len(chain) {
-		return fail("output contains %d distinct markers, the chain has %d files", len(count), len(chain))
+	if len(count) != len(chain)-inner {
+		return fail("output contains %d distinct markers, want %d (chain of %d files, the innermost %d render to nothing)", len(count), len(chain)-inner, len(chain), inner)
+	}
+	if inner == len(chain) {
+		if len(forest) != 0 {
+			return fail("the outermost file has no body: want an empty document")
+		}
+		return nil
 	}
 	level := forest
-	for i := len(chain) - 1; i >= 0; i-- {
+	for i := len(chain) - 1; i >= inner; i-- {
 		f := chain[i]
 		id := markerID(f.Path)
 		if len(level) != 1 || level[0].Tag == "" {
@@ -744,6 +796,12 @@ func verify(c Case, chain []File, pageReused bool, out []byte) error {
 		}
 		if slot == nil {
 			return fail("layout %s has no content holder in the output", f.Path)
+		}
+		if i == inner {
+			if len(slot.Kids) != 0 {
+				return fail("layout %s wraps a file without body: want an empty content holder, got %s", f.Path, hx.String(slot.Kids))
+			}
+			break
 		}
 		level = slot.Kids
 	}
@@ -851,6 +909,26 @@ func classify(c Case) (bool, []string) {
 	}
 	if pl.nonStr {
 		cls = append(cls, "link:name-is-non-string-yaml-scalar")
+	}
+	{
+		crlf, blanks, nobody := false, false, false
+		for i, f := range pl.chain {
+			if i > 0 && i == len(pl.chain)-1 && pl.pageReused {
+				break
+			}
+			crlf = crlf || f.EOL == "crlf"
+			blanks = blanks || (f.Fence != "" && (i == 0 || f.Layout != "" || f.Empty != "" || f.K != ""))
+			nobody = nobody || bodiless(f, i == 0)
+		}
+		if crlf {
+			cls = append(cls, "spelling:crlf-file-on-chain")
+		}
+		if blanks {
+			cls = append(cls, "spelling:blanks-after-fence-on-chain")
+		}
+		if nobody {
+			cls = append(cls, "spelling:front-matter-only-file-on-chain")
+		}
 	}
 	if c.Page.Layout == "" && c.Page.Empty != "" && c.LayoutVia == "" {
 		if baseExists {
@@ -1200,6 +1278,24 @@ func genCase(t *rapid.T) Case {
 			c.Files[i].Empty = rapid.SampledFrom(emptySpellings[1:]).Draw(t, "empty:"+c.Files[i].Path)
 		}
 	}
+	spell := func(f *File, label string) {
+		if rapid.IntRange(0, 2).Draw(t, "crlf:"+label) == 0 {
+			f.EOL = "crlf"
+		}
+		if rapid.IntRange(0, 2).Draw(t, "fence?:"+label) == 0 {
+			f.Fence = rapid.SampledFrom([]string{"open-sp", "close-sp", "close-tab", "both-sp"}).Draw(t, "fence:"+label)
+		}
+		if rapid.IntRange(0, 14).Draw(t, "nobody?:"+label) == 0 {
+			f.NoBody = rapid.SampledFrom([]string{"eof", "eofnl"}).Draw(t, "nobody:"+label)
+		}
+	}
+	spell(&c.Page, "page")
+	for i := range c.Files {
+		spell(&c.Files[i], c.Files[i].Path)
+	}
+	if c.Long != nil && rapid.Bool().Draw(t, "long.crlf") {
+		c.Long.EOL = "crlf"
+	}
 	if c.Page.Layout != "" {
 		c.LayoutVia = rapid.SampledFrom([]string{"", "", "", "", "fill", "assign"}).Draw(t, "layout.via")
 	}
@@ -1269,6 +1365,64 @@ func (s *stage) yield(c Case) bool {
 		return false
 	}
 	return true
+}
+
+var spellCombos = []struct{ eol, fence string }{
+	{"", ""}, {"crlf", ""}, {"", "close-sp"}, {"crlf", "close-tab"}, {"", "open-sp"}, {"crlf", "both-sp"}, {"", ""}, {"", "close-tab"},
+}
+
+// rotateSpell varies how each file is written (LF / CRLF, blanks or a TAB after the fences, and
+// now and then a front-matter-only file ending at the closing fence) as a function of the index.
+func rotateSpell(c *Case, i int) {
+	set := func(f *File, n int) {
+		sc := spellCombos[n%len(spellCombos)]
+		f.EOL, f.Fence = sc.eol, sc.fence
+	}
+	set(&c.Page, i)
+	for j := range c.Files {
+		set(&c.Files[j], i/3+3*j+1)
+	}
+	if c.Long != nil && i%2 == 1 {
+		c.Long.EOL = "crlf"
+	}
+	switch i % 13 {
+	case 5:
+		c.Page.NoBody = "eof"
+	case 9:
+		if len(c.Files) > 0 {
+			c.Files[(i/13)%len(c.Files)].NoBody = []string{"eofnl", "eof"}[(i/13)%2]
+		}
+	}
+}
+
+// spellings: a chain page -> layouts/a -> layouts/404 where one of the three files is written in
+// every combination of line ending x fence blanks x body / front-matter only (closing fence at
+// end of file with and without a final line ending); both entry points.
+func spellings(s *stage) {
+	for _, eol := range []string{"", "crlf"} {
+		for _, fence := range []string{"", "open-sp", "close-sp", "close-tab", "both-sp"} {
+			for _, nb := range []string{"", "eof", "eofnl"} {
+				for who := 0; who < 3; who++ {
+					for _, via := range []string{"", "renderfile"} {
+						c := Case{Page: File{Path: "pages/p.vuego", Layout: "a", K: kValue("pages/p.vuego")},
+							Files: []File{{Path: "layouts/a.vuego", Layout: "404"}, {Path: "layouts/404.vuego", K: kValue("layouts/404.vuego")}}, Via: via}
+						if s.n%2 == 0 {
+							c.FillK = kFill
+						}
+						f := &c.Page
+						if who > 0 {
+							f = &c.Files[who-1]
+						}
+						f.EOL, f.Fence, f.NoBody = eol, fence, nb
+						rotateFS(&c, s.n/2)
+						if !s.yield(c) {
+							return
+						}
+					}
+				}
+			}
+		}
+	}
 }
 
 var emptySpellings = []string{"", "bare", "quoted", "tilde"}
@@ -1397,6 +1551,7 @@ func overlaySplits(s *stage) {
 			}
 			applyKMask(&d, (i*7+i/3)%(4<<len(d.Files)))
 			rotateEmpty(&d, i/2)
+			rotateSpell(&d, i)
 			if !s.yield(d) {
 				return false
 			}
@@ -1429,6 +1584,11 @@ func longChains(s *stage) {
 						c.Via = "renderfile"
 					}
 					rotateFS(&c, s.n)
+					rotateSpell(&c, s.n)
+					c.Page.NoBody = "" // keep the long chains fully observable
+					for j := range c.Files {
+						c.Files[j].NoBody = ""
+					}
 					if !s.yield(c) {
 						return
 					}
@@ -1488,6 +1648,7 @@ func shapes(s *stage) {
 						c.Via = "renderfile"
 					}
 					rotateEmpty(&c, i/3)
+					rotateSpell(&c, i)
 					if !viaDefault && L > 0 {
 						switch i % 6 {
 						case 1:
@@ -1532,6 +1693,7 @@ func allGraphs(s *stage, slots []string) {
 		}
 		rotateFS(&c, i)
 		rotateEmpty(&c, i/5)
+		rotateSpell(&c, i)
 		return s.yield(c)
 	})
 }
@@ -1582,6 +1744,7 @@ func TestProp(t *testing.T) {
 		{"long", "synthetic chains of 6..150 layouts", longChains},
 		{"zone", "default-applied vs explicitly named base over chains of 93..106 templates", limitZone},
 		{"overlay", "all layout graphs over 3 files x 3 page options x every upper/lower split of the layout files", overlaySplits},
+		{"spell", "one file of a 3-file chain in every line-ending x fence-blanks x body/front-matter-only spelling", spellings},
 		{"empty", "page layout key absent/empty in three spellings x base absent/present/continuing", emptyKeys},
 		{"shape", "chain shapes: lengths 0..5 x placements x endings x default/named", shapes},
 		{"enum", fmt.Sprintf("all layout graphs over %d layout files x 6 page options", len(slots)), func(s *stage) { allGraphs(s, slots) }},
